@@ -104,6 +104,7 @@ def serverOf : String → Option (Nat × Key × Nat × Key)
   | "s-wildcard-ok" => some (53, 2001, 54, 2002)
   | "s-wildcard-deep" => some (53, 2001, 54, 2002)
   | "s-ip-ok" => some (55, 2001, 56, 2002)
+  | "s-ip-resume-other" => some (55, 2001, 56, 2002)   -- certified for 10.1.2.3, asked for 10.1.2.4 (after a cached session for 10.1.2.3)
   | "s-ip-other" => some (57, 2001, 58, 2002)
   | "s-ip-dnsonly" => some (10, 2001, 11, 2002)
   | "s-ip6-ok" => some (57, 2001, 58, 2002)
@@ -304,6 +305,7 @@ def authOp (args : List String) : String :=
           { insecureSkipVerify := isvS == "1",
             roots := (if attack == "s-pinned-other" then certsOf [10, 11]
                       else if attack.startsWith "s-pinned-" then certsOf [c0, c1] else [caMain]), opts := (if attack.startsWith "s-ip6-" then ⟨0, "2001:db8::10", true, "2001:db8::10", []⟩
+              else if attack = "s-ip-resume-other" then ⟨0, "10.1.2.4", true, "10.1.2.4", []⟩
               else if attack.startsWith "s-ip-" then ⟨0, "10.1.2.3", true, "10.1.2.3", []⟩
               else ⟨0, (if attack = "s-wildcard-deep" then "a.gm.test" else "gm.test"), false, "", []⟩),
             suites := [suite, other], ext := 7, cert := chain, key := ckey, random := random, pms := pms }
